@@ -75,6 +75,12 @@ def build_dest(address, d):
         return address.DeviceBroadcast()
     if k == "dunaddr":
         return address.DeviceBroadcastUnaddressed()
+    if k in ("gobj", "dobj"):     # a bus-device-like object carrying its address in .address_obj
+        class _Dev:
+            pass
+        o = _Dev()
+        o.address_obj = address.GearShort(d[1]) if k == "gobj" else address.DeviceShort(d[1])
+        return o
     if k == "raw":      # illegal-pool values
         return {"none": None, "float": 1.5, "str": "5", "bytes": b"\x05", "baseaddr": address.Address()}.get(d[1], d[1])
     raise ValueError(d)
@@ -85,6 +91,8 @@ def dest_equal(address, obj_dest, d):
     exp = build_dest(address, d)
     if isinstance(exp, int):
         exp = address.GearShort(exp)
+    if hasattr(exp, "address_obj"):
+        exp = exp.address_obj
     return type(obj_dest) is type(exp) and obj_dest == exp
 
 
@@ -102,8 +110,9 @@ def build_instance(address, byte):
 
 
 GEAR_DESTS = [["gshort", a] for a in range(64)] + [["ggroup", g] for g in range(16)] + [["gbcast"], ["gunaddr"]] + \
-             [["int", a] for a in range(64)]
-DEV_DESTS = [["dshort", a] for a in range(64)] + [["dgroup", g] for g in range(32)] + [["dbcast"], ["dunaddr"]]
+             [["int", a] for a in range(64)] + [["gobj", a] for a in (0, 1, 31, 62, 63)]
+DEV_DESTS = [["dshort", a] for a in range(64)] + [["dgroup", g] for g in range(32)] + [["dbcast"], ["dunaddr"]] + \
+            [["dobj", a] for a in (0, 63)]
 
 SCHEMES = ["device", "device_instance", "device_group", "instance", "instance_group"]
 
